@@ -30,8 +30,8 @@ From SV Require Import Base Json Canon Doc CorrC05 C05Proofs.
 
 Theorem C05_buffer_transparent_partial : forall (frepr : fl -> str) prog st0,
   good_init st0 -> forallb (fun it => negb (is_new it)) prog = true ->
-  let '(B, rb) := crun frepr merge st0 prog in
-  let '(U, ru) := crun frepr merge st0 (strip prog) in
+  let '(B, rb) := crun frepr merge (fun k : N => k) st0 prog in
+  let '(U, ru) := crun frepr merge (fun k : N => k) st0 (strip prog) in
   keep prog rb = ru /\
   (forall h, nlookup h (mems B) = nlookup h (mems U)) /\
   (depth B = 0%nat ->
@@ -43,29 +43,29 @@ Print Assumptions C05_buffer_transparent_partial.
 (* the simulation invariant behind it is preserved by every item, for the buffered run against the unbuffered one *)
 Theorem C05_simulation_step : forall (frepr : fl -> str) B U it,
   Inv B U -> is_new it = false ->
-  let '(B', rB) := cstep frepr merge B it in
+  let '(B', rB) := cstep frepr merge (fun k : N => k) B it in
   if unbuffered_item it
-  then let '(U', rU) := cstep frepr merge U it in rB = rU /\ Inv B' U'
+  then let '(U', rU) := cstep frepr merge (fun k : N => k) U it in rB = rU /\ Inv B' U'
   else Inv B' U.
 Proof. exact cstep_sim. Qed.
 Print Assumptions C05_simulation_step.
 
 Theorem C05_buffer_transparent_refuted :
-  let B := fst (crun fr0 merge core0 prog_lost) in
-  let U := fst (crun fr0 merge core0 (strip prog_lost)) in
+  let B := fst (crun fr0 merge (fun k : N => k) core0 prog_lost) in
+  let U := fst (crun fr0 merge (fun k : N => k) core0 (strip prog_lost)) in
   depth B = 0%nat /\ fcontent B 1 = JObj [] /\ fcontent U 1 = JObj [(kx, JInt 1)].
 Proof. exact buffer_transparent_refuted_w. Qed.
 Print Assumptions C05_buffer_transparent_refuted.
 
 Theorem C05_read_own_writes_refuted :
-  nth 6 (snd (crun fr0 merge core0 prog_own)) (Err EOther) = Ok JNull /\
-  nth 7 (snd (crun fr0 merge core0 prog_own)) (Err EOther) = Ok (JObj []).
+  nth 6 (snd (crun fr0 merge (fun k : N => k) core0 prog_own)) (Err EOther) = Ok JNull /\
+  nth 7 (snd (crun fr0 merge (fun k : N => k) core0 prog_own)) (Err EOther) = Ok (JObj []).
 Proof. exact read_own_writes_refuted_w. Qed.
 Print Assumptions C05_read_own_writes_refuted.
 
 Theorem C05_doc_faithful_partial : forall (frepr : fl -> str) st h f d p o,
   uptodate st h f d ->
-  let '(st', r) := cop frepr merge st h p o in
+  let '(st', r) := cop frepr merge (fun k : N => k) st h p o in
   let '(d', r') := doc_apply merge p o d in
   r = r' /\ uptodate st' h f (if is_read o then d else d') /\
   (forall f0, f0 <> f -> nlookup f0 (files st') = nlookup f0 (files st)) /\
@@ -78,14 +78,14 @@ Proof. exact doc_apply_plain. Qed.
 Print Assumptions C05_merge_free_is_plain.
 
 Theorem C05_doc_faithful_refuted :
-  exists v, nth 3 (snd (crun fr0 merge core0 prog_none)) (Err EOther) = Ok v /\
-            fcontent (fst (crun fr0 merge core0 prog_none)) 1 = v /\
+  exists v, nth 3 (snd (crun fr0 merge (fun k : N => k) core0 prog_none)) (Err EOther) = Ok v /\
+            fcontent (fst (crun fr0 merge (fun k : N => k) core0 prog_none)) 1 = v /\
             plain_none = JObj [(kc, JNull)] /\ py_eq v plain_none = false.
 Proof. exact doc_faithful_refuted_w. Qed.
 Print Assumptions C05_doc_faithful_refuted.
 
 Theorem C05_doc_faithful_typed_refuted :
-  nth 3 (snd (crun fr0 merge core0 prog_typed)) (Err EOther) = Ok (JObj [(kx, JInt 1)]) /\
+  nth 3 (snd (crun fr0 merge (fun k : N => k) core0 prog_typed)) (Err EOther) = Ok (JObj [(kx, JInt 1)]) /\
   fst (plain_step [] (OUpdate [(kx, JBool true)]) (JObj [(kx, JInt 1)])) = JObj [(kx, JBool true)] /\
   py_eq (JObj [(kx, JInt 1)]) (JObj [(kx, JBool true)]) = true.
 Proof. exact doc_faithful_typed_refuted_w. Qed.
@@ -93,31 +93,31 @@ Print Assumptions C05_doc_faithful_typed_refuted.
 
 Theorem C05_doc_handle_follows_rekey : forall (frepr : fl -> str) js j f f' d,
   nlookup j (jobs js) = Some (f, d) -> f <> f' -> nmem f (dirs js) = true -> nmem f' (dirs js) = false -> f' <> 0%N ->
-  let js1 := fst (jstep frepr merge js (JRekey j f')) in
-  snd (jstep frepr merge js (JRekey j f')) = Ok JNull /\
+  let js1 := fst (jstep frepr merge (fun k : N => k) js (JRekey j f')) in
+  snd (jstep frepr merge (fun k : N => k) js (JRekey j f')) = Ok JNull /\
   nlookup j (jobs js1) = Some (f', None) /\
   nlookup f' (files (core js1)) = nlookup f (files (core js)) /\
   nlookup f (files (core js1)) = None /\
-  exists js2 h, resolve_doc frepr merge js1 j = Some (js2, h) /\
+  exists js2 h, resolve_doc frepr merge (fun k : N => k) js1 j = Some (js2, h) /\
                 nlookup h (mems (core js2)) = Some (f', empty_obj) /\ nmem f' (dirs js2) = true.
 Proof. exact follow_rekey. Qed.
 Print Assumptions C05_doc_handle_follows_rekey.
 
 Theorem C05_doc_handle_follows_remove : forall (frepr : fl -> str) js j f d,
   nlookup j (jobs js) = Some (f, d) -> nmem f (dirs js) = true -> depth (core js) = 0%nat ->
-  let js1 := fst (jstep frepr merge js (JRemove j)) in
+  let js1 := fst (jstep frepr merge (fun k : N => k) js (JRemove j)) in
   nlookup j (jobs js1) = Some (f, None) /\ nlookup f (files (core js1)) = None /\ nmem f (dirs js1) = false /\
-  exists js2 h, resolve_doc frepr merge js1 j = Some (js2, h) /\
+  exists js2 h, resolve_doc frepr merge (fun k : N => k) js1 j = Some (js2, h) /\
                 nlookup h (mems (core js2)) = Some (f, empty_obj) /\ h = nexth js.
 Proof. exact follow_remove. Qed.
 Print Assumptions C05_doc_handle_follows_remove.
 
 Theorem C05_doc_handle_follows_op : forall (frepr : fl -> str) js j f p o,
   nlookup j (jobs js) = Some (f, None) ->
-  exists js1 h, resolve_doc frepr merge js j = Some (js1, h) /\ nlookup h (mems (core js1)) = Some (f, empty_obj) /\
-                jstep frepr merge js (JOp j p o) =
-                  (with_core js1 (fst (cstep frepr merge (core js1) (COp h p o))),
-                   snd (cstep frepr merge (core js1) (COp h p o))).
+  exists js1 h, resolve_doc frepr merge (fun k : N => k) js j = Some (js1, h) /\ nlookup h (mems (core js1)) = Some (f, empty_obj) /\
+                jstep frepr merge (fun k : N => k) js (JOp j p o) =
+                  (with_core js1 (fst (cstep frepr merge (fun k : N => k) (core js1) (COp h p o))),
+                   snd (cstep frepr merge (fun k : N => k) (core js1) (COp h p o))).
 Proof. exact follow_op. Qed.
 Print Assumptions C05_doc_handle_follows_op.
 
@@ -152,9 +152,20 @@ Theorem C05_provenance_irrelevant : forall (frepr : fl -> str) prog js,
 Proof. exact jrun_provenance. Qed.
 Print Assumptions C05_provenance_irrelevant.
 
-Theorem C05_cwd_irrelevant : forall (frepr : fl -> str) js d, jstep frepr merge js (JCwd d) = (js, Ok JNull).
+Theorem C05_cwd_irrelevant : forall (frepr : fl -> str) canon js d, jstep frepr merge canon js (JCwd d) = (js, Ok JNull).
 Proof. exact cwd_irrelevant. Qed.
 Print Assumptions C05_cwd_irrelevant.
+
+(* ... the one provenance that is NOT in the class, on the unchanged code too: a project path through a symlinked
+   prefix spells its file names differently (abspath does not resolve links), the buffer holds two entries for one
+   file: BufferedError on exit and the write of the object flushed second is lost (known finding 4; [erase_prov]
+   keeps exactly this provenance).  The core theorems above are for canonical paths (key = file). *)
+Theorem C05_symlink_two_keys_refuted :
+  let obs := jrun fr0 merge (init_js 33554432) prog_symlink in
+  map o_ret (skipn 6 obs) = [Err ERuntimeError] /\
+  o_files (last obs (model_obs (init_js 0) (Ok JNull))) = [(1%N, JObj [(kc, JInt 2)])].
+Proof. exact symlink_two_keys_refuted_w. Qed.
+Print Assumptions C05_symlink_two_keys_refuted.
 
 (* licence for the correspondence step: when the implementation's observations ARE the model's, the oracle's
    verdict on the implementation is its verdict on the model run (and there is no mismatch iff the model agrees
